@@ -142,7 +142,20 @@ func checkLookups(in *Inst, f *model.Forest, tracked []int, others []Hash, res *
 			add(r, 0, false)
 		}
 	}
-	add(Hash{}, 0, false)
+	// the all-zero hash is "never added" - unless the case's sparse leaf is live: the pointer forest keys
+	// its leaf map by the first 12 bytes by design, and a question that shares that key with a live
+	// leaf is a key collision of the harness's own making (section 11)
+	zeroKeyLive := false
+	for s, h := range f.Hashes {
+		if !f.Dead[s] && [12]byte(h[:12]) == [12]byte{} {
+			zeroKeyLive = true
+		}
+	}
+	if !zeroKeyLive {
+		add(Hash{}, 0, false)
+	} else {
+		res.count("probe:zero-hash-skipped-sparse-leaf-live", 1)
+	}
 	for i, h := range probes {
 		p, ok := acc.GetLeafPosition(h)
 		if ok != wantFound[i] || (ok && p != wantPos[i]) {
